@@ -452,6 +452,9 @@ func judgeCorr(what string) func(args, real, drv json.RawMessage) *core.Verdict 
 			return core.Disagree(what + ": malformed exchange")
 		}
 		if _, ok := d["unmodelled"]; ok {
+			c09CovMu.Lock()
+			c09Unmodelled[what+": "+string(d["unmodelled"])]++
+			c09CovMu.Unlock()
 			return core.Skip("outside the model: " + string(d["unmodelled"]))
 		}
 		if _, ok := d["bad"]; ok {
@@ -488,6 +491,9 @@ func judgeCorr(what string) func(args, real, drv json.RawMessage) *core.Verdict 
 		return nil
 	}
 }
+
+// c09Unmodelled counts the cases the Lean model declares outside its scope, by reason (reported as a note).
+var c09Unmodelled = map[string]int{}
 
 func init() {
 	core.Register("c09.marshal", &core.CheckDef{Real: realMarshal, DriverOp: "c09.marshal", Judge: judgeCorr("marshal")})
